@@ -130,6 +130,25 @@ func IterateImportedDecls(imprt *ImportStmt, fun func(name string, decl Declarat
 	}
 }
 
+// returns the names of args sorted by the position of the arguments in the source code
+// iterating over them instead of over the map makes the order in which the arguments
+// are visited (and errors are reported) the same on every run
+func SortedArgNames(args map[string]Expression) []string {
+	names := make([]string, 0, len(args))
+	for name := range args {
+		names = append(names, name)
+	}
+
+	sort.Slice(names, func(i, j int) bool {
+		start, startj := args[names[i]].GetRange().Start, args[names[j]].GetRange().Start
+		if start != startj {
+			return start.Line < startj.Line || (start.Line == startj.Line && start.Column < startj.Column)
+		}
+		return names[i] < names[j]
+	})
+	return names
+}
+
 func toPointerSlice[T any](slice []T) []*T {
 	result := make([]*T, len(slice))
 	for i := range slice {
